@@ -34,6 +34,7 @@ txt = {
  "V_pai1": "\"Cullen\" <sip:fluffy@c.example>", "V_pai2": "<sip:a@b>, <tel:+14085264000>", "V_pai3": "<sip:a@b>, <sip:c@d>, <sip:e@f>",
  "V_x1": "bar", "V_x2": "a b\tc", "V_x3": "folded\r\n value", "V_x4": "lf\n\tfold", "V_x5": "cr\r fold", "V_empty": "",
  "V_subj": "I know you're there, pick up the phone: and talk!",
+ "V_big1": "16777217", "V_big2": "4294967296", "V_big3": "0000000568", "V_big4": "99999999999", "V_big5": "4000000000",
  # first lines
  "FL_inv": "INVITE sip:bob@b.example SIP/2.0", "FL_reg": "REGISTER sip:r.example SIP/2.0", "FL_opt": "OPTIONS sip:x SIP/2.0",
  "FL_foo": "FOO sip:x@y SIP/2.0", "FL_ack": "ACK sip:bob@b.example;transport=tcp SIP/2.0",
